@@ -1,19 +1,28 @@
 #!/bin/bash
-# usage: seedconfirm.sh <worktree> <outdir-with-patch.diff+demo.rs> [features]
-# confirms in the scratch worktree: builds + existing tests pass with the change; demo fails with it, passes without
-wt=$1; out=$2; feat=${3:-}
+# usage: seedconfirm.sh <ID> <variant> [features]
+# confirms a seeded change in the scratch worktree /tmp/wt/<ID> (moved to /repo's current HEAD): it builds, the existing
+# test suite passes with it, its demonstration fails with it and passes without it.  Result: /tmp/wt/<ID>.<variant>.result
+ID=$1; var=$2; feat=${3:-}
+wt=/tmp/wt/$ID; out=/tmp/wt/$ID.out/$var; res=/tmp/wt/$ID.$var.result
 cd "$wt" || exit 2
-git checkout -q -- . ; rm -f tests/seeded_confirm.rs
-git apply "$out/patch.diff" || { echo "RESULT apply-failed"; exit 1; }
+git checkout -q -- . ; rm -f tests/seeded_confirm.rs tests/seeded_*.rs
+git checkout -q --detach "$(git -C /repo rev-parse HEAD)"
+git apply "$out/patch.diff" || { echo "RESULT apply-failed" > $res; exit 1; }
 export CARGO_NET_OFFLINE=true
-cargo build --offline >/dev/null 2>&1 || { echo "RESULT build-failed"; git checkout -q -- .; exit 1; }
-# doctests can hang on a loaded machine in the unrepaired Drop (fixed in /repo by 0511e00): run them under a timeout
-log=$(timeout 900 cargo test --workspace --offline --no-fail-fast --lib --tests 2>&1; timeout 600 cargo test --offline --doc 2>&1)
+cargo build --offline >/dev/null 2>&1 || { echo "RESULT build-failed" > $res; git checkout -q -- .; exit 1; }
+log=$(timeout 1500 cargo test --workspace --offline --no-fail-fast --lib --tests 2>&1; timeout 1500 cargo test --offline --doc 2>&1)
 suite=$(echo "$log" | grep -E "^test result" | awk '{p+=$4; f+=$6} END {print p" passed "f" failed"}')
-flaky=$(echo "$log" | grep -E "^test .* FAILED" | head -3 | tr '\n' ';')
+failing=$(echo "$log" | grep -E "^test .* FAILED" | head -3 | tr '\n' ';')
+# a failing existing test is re-run 3 times alone: flaky (also fails/passes on the unchanged tree) or really broken by the change
+rerun=""
+for t in $(echo "$log" | grep -E "^test .* FAILED" | awk '{print $2}' | head -3); do
+  ok=0; for i in 1 2 3; do cargo test --offline $t 2>&1 | grep -q "^test result: ok" && ok=$((ok+1)); done
+  rerun="$rerun $t:rerun_ok=$ok/3"
+done
 cp "$out/demo.rs" tests/seeded_confirm.rs
-with=$(cargo test --offline $feat --test seeded_confirm 2>&1 | grep -E "^test result" | head -1)
+with=$(timeout 900 cargo test --offline $feat --test seeded_confirm 2>&1 | grep -E "^test result" | head -1)
 git checkout -q -- src
-without=$(cargo test --offline $feat --test seeded_confirm 2>&1 | grep -E "^test result" | head -1)
+without=$(timeout 900 cargo test --offline $feat --test seeded_confirm 2>&1 | grep -E "^test result" | head -1)
 rm -f tests/seeded_confirm.rs; git checkout -q -- .
-echo "RESULT suite_with_change=[$suite] failing_tests=[$flaky] demo_with_change=[$with] demo_without=[$without]"
+echo "RESULT $ID/$var head=$(git rev-parse --short HEAD) suite_with_change=[$suite] failing_tests=[$failing] reruns=[$rerun] demo_with_change=[$with] demo_without=[$without]" > $res
+cat $res
